@@ -762,6 +762,22 @@ def runDSpecOp (m : DSpec.DList) (cfg : Cfg) (a : LArgs) : Except String (DSpec.
   | "getitem" => pure (DSpec.getitem m a.E cfg idx)
   | "iter" => pure (DSpec.iter m a.E cfg false)
   | "riter" => pure (DSpec.iter m a.E cfg true)
+  | "extend" => pure (DSpec.extend m a.E cfg a.vs false)
+  | "iadd" => pure (DSpec.extend m a.E cfg a.vs false)
+  | "extendleft" => pure (DSpec.extend m a.E cfg a.vs true)
+  | "setitem" => do let v ← needV a; pure (DSpec.setitem m a.E cfg idx v)
+  | "delitem" => pure (DSpec.delitem m idx)
+  | "rotate" => pure (DSpec.rotate m idx)
+  | "reverse" => pure (DSpec.reverse m)
+  | "maxlen" => pure (DSpec.setMaxlen m idx.toNat)
+  | "count" => do let v ← needV a; pure (DSpec.count m a.E cfg v)
+  | "remove" => do let v ← needV a; pure (DSpec.remove m a.E cfg v)
+  | "cmp" =>
+    let op ← match a.kv.getD "op" "" with
+      | "eq" => pure CmpOp.eq | "ne" => pure CmpOp.ne | "lt" => pure CmpOp.lt
+      | "gt" => pure CmpOp.gt | "le" => pure CmpOp.le | "ge" => pure CmpOp.ge
+      | o => throw s!"cmp-op:{o}"
+    pure (DSpec.compare m a.E cfg op a.vs)
   | other => throw s!"dspec-method:{other}"
 
 /-- one `osop` line on the reference insertion-ordered dictionary of C12 (DC.Model.OSpec) -/
@@ -780,6 +796,17 @@ def runOSpecOp (m : DC.ODict) (cfg : Cfg) (a : LArgs) : Except String (DC.ODict 
   | "clear" => pure (OSpec.clear m)
   | "update" =>
     if a.ks.length != a.vs.length then throw "update-lengths" else pure (OSpec.update m a.E cfg (a.ks.zip a.vs))
+  | "items" => pure (OSpec.items m a.E cfg)
+  | "keys" => pure (OSpec.iter m a.E cfg true)
+  | "values" => pure (OSpec.values m a.E cfg)
+  | "eq" =>
+    if a.ks.length != a.vs.length then throw "eq-lengths"
+    else pure (OSpec.eqTo m a.E cfg (parseBool (a.kv.getD "ordered" "0")) (a.ks.zip a.vs))
+  | "ne" =>
+    if a.ks.length != a.vs.length then throw "ne-lengths"
+    else pure (OSpec.neTo m a.E cfg (parseBool (a.kv.getD "ordered" "0")) (a.ks.zip a.vs))
+  | "pickle" => pure (OSpec.rehandle m)
+  | "reopen" => pure (OSpec.rehandle m)
   | other => throw s!"ospec-method:{other}"
 
 def runDjangoOp (d : Django) (a : LArgs) : Except String (Django × Out) := do
